@@ -503,3 +503,475 @@ def branch_facts(mod: Module, fn: ast.AST, node: ast.AST) -> list[tuple[ast.expr
             elif always_leaves(st.orelse) and not always_leaves(st.body):
                 facts.append((st.test, True))
     return facts
+
+
+# =========================================================================== helpers of rules (v) - (ae)
+
+
+def text_renderings(e: ast.AST) -> list[tuple[ast.AST, ast.AST, bool]]:
+    """(node, operand, fixed_point) for every place in e where a value is turned into text: str(x) / repr(x) / x.__str__(),
+    format(x, spec), an f-string field {x} / {x:spec}, '...%s...' % x, '...{}...'.format(x).  fixed_point says that the format
+    asked for is the fixed-point one (spec ends in 'f' / every directive is %f): the only rendering of a Decimal that never
+    switches to exponent notation"""
+    import re as _re
+
+    out: list[tuple[ast.AST, ast.AST, bool]] = []
+
+    def spec_fixed(spec: Optional[ast.AST]) -> bool:
+        if spec is None:
+            return False
+        if isinstance(spec, ast.JoinedStr) and len(spec.values) == 1:
+            spec = spec.values[0]
+        return isinstance(spec, ast.Constant) and isinstance(spec.value, str) and spec.value.endswith(("f", "F"))
+
+    for n in ast.walk(e):
+        if isinstance(n, ast.Call) and isinstance(n.func, ast.Name) and n.func.id in ("str", "repr") and len(n.args) == 1 and not n.keywords:
+            out.append((n, n.args[0], False))
+        elif isinstance(n, ast.Call) and isinstance(n.func, ast.Attribute) and n.func.attr in ("__str__", "__repr__") and not n.args:
+            out.append((n, n.func.value, False))
+        elif isinstance(n, ast.Call) and isinstance(n.func, ast.Name) and n.func.id == "format" and n.args:
+            out.append((n, n.args[0], spec_fixed(n.args[1] if len(n.args) > 1 else None)))
+        elif isinstance(n, ast.FormattedValue):
+            out.append((n, n.value, spec_fixed(n.format_spec)))
+        elif isinstance(n, ast.BinOp) and isinstance(n.op, ast.Mod) and isinstance(n.left, ast.Constant) and isinstance(n.left.value, str):
+            dirs = _re.findall(r"%[-+ #0-9.]*([a-zA-Z%])", n.left.value)
+            fixed = bool(dirs) and all(d in "fF%" for d in dirs)
+            for x in (n.right.elts if isinstance(n.right, ast.Tuple) else [n.right]):
+                out.append((n, x, fixed))
+        elif isinstance(n, ast.Call) and isinstance(n.func, ast.Attribute) and n.func.attr == "format" and isinstance(n.func.value, ast.Constant) \
+                and isinstance(n.func.value.value, str):
+            fields = _re.findall(r"\{[^{}]*\}", n.func.value.value)
+            fixed = bool(fields) and all(_re.fullmatch(r"\{[^:{}]*:[^{}]*[fF]\}", f) for f in fields)
+            for x in list(n.args) + [k.value for k in n.keywords]:
+                out.append((n, x, fixed))
+    return out
+
+
+def isinstance_classes(e: ast.AST, who: str) -> list[str]:
+    """last name components of the classes of every isinstance(<who>, C) / isinstance(<who>, (C, D)) call inside e"""
+    out: list[str] = []
+    for c in ast.walk(e):
+        if isinstance(c, ast.Call) and isinstance(c.func, ast.Name) and c.func.id == "isinstance" and len(c.args) == 2 and norm(c.args[0]) == who:
+            for k in (c.args[1].elts if isinstance(c.args[1], ast.Tuple) else [c.args[1]]):
+                out.append(norm(k).rsplit(".", 1)[-1])
+    return out
+
+
+def annotation_classes(ann: Optional[ast.AST]) -> list[str]:
+    """class names (last component) of a return annotation that is a union: A | B, Union[A, B], Optional[A]; [] when there is none"""
+    if ann is None:
+        return []
+    if isinstance(ann, ast.Constant) and isinstance(ann.value, str):
+        try:
+            ann = ast.parse(ann.value, mode="eval").body
+        except SyntaxError:
+            return []
+    if isinstance(ann, ast.BinOp) and isinstance(ann.op, ast.BitOr):
+        return annotation_classes(ann.left) + annotation_classes(ann.right)
+    if isinstance(ann, ast.Subscript) and norm(ann.value).rsplit(".", 1)[-1] in ("Union", "Optional"):
+        els = ann.slice.elts if isinstance(ann.slice, ast.Tuple) else [ann.slice]
+        out: list[str] = []
+        for x in els:
+            out += annotation_classes(x)
+        return out
+    if isinstance(ann, ast.Constant) and ann.value is None:
+        return []
+    if isinstance(ann, (ast.Name, ast.Attribute)):
+        return [norm(ann).rsplit(".", 1)[-1]]
+    return ["?" + norm(ann)]
+
+
+def table_rows(mod: Module, name: str) -> list[ast.expr]:
+    """elements of the module-level list display bound to `name`, plus the arguments of every module-level `name.append(x)`
+    (also under a top-level if)"""
+    rows: list[ast.expr] = []
+    for v in module_assigns(mod).get(name, []):
+        if isinstance(v, (ast.List, ast.Tuple)):
+            rows += list(v.elts)
+
+    def scan(stmts: list[ast.stmt]) -> None:
+        for st in stmts:
+            if isinstance(st, ast.Expr) and isinstance(st.value, ast.Call) and norm(st.value.func) == name + ".append" and len(st.value.args) == 1:
+                rows.append(st.value.args[0])
+            elif isinstance(st, ast.If):
+                scan(st.body)
+                scan(st.orelse)
+
+    scan(mod.tree.body)
+    return rows
+
+
+def dict_table(mod: Module, name: str) -> list[tuple[ast.expr, ast.expr]]:
+    """(key, value) of the module-level dict display bound to `name`, plus every module-level `name[key] = value` (also under a
+    top-level if)"""
+    out: list[tuple[ast.expr, ast.expr]] = []
+    for v in module_assigns(mod).get(name, []):
+        if isinstance(v, ast.Dict):
+            out += [(k, x) for k, x in zip(v.keys, v.values) if k is not None]
+
+    def scan(stmts: list[ast.stmt]) -> None:
+        for st in stmts:
+            if isinstance(st, ast.Assign) and len(st.targets) == 1 and isinstance(st.targets[0], ast.Subscript) and norm(st.targets[0].value) == name:
+                out.append((st.targets[0].slice, st.value))
+            elif isinstance(st, ast.If):
+                scan(st.body)
+                scan(st.orelse)
+
+    scan(mod.tree.body)
+    return out
+
+
+def consulted_before(mod: Module, fn: ast.AST, node: ast.AST) -> list[ast.AST]:
+    """expressions evaluated before control reaches node, as far as the nesting shows: the earlier sibling statements at every
+    level, and the tests of the enclosing if / while statements"""
+    out: list[ast.AST] = list(earlier_siblings(mod, fn, node))
+    for p in mod.parents(node):
+        if isinstance(p, (ast.If, ast.While)):
+            out.append(p.test)
+        if p is fn:
+            break
+    return out
+
+
+# =========================================================================== calls followed into the helpers they run
+# A rule stands for a clause about what a public entry point does; where the code that does it sits - in the entry point
+# or in a private helper it calls - is not part of the clause.  These helpers resolve a call to the def it runs (when the
+# syntax tells), bind its parameters, and let a rule carry a value (the lexical form, the quoted text, a token) across it.
+
+
+def _method_owners(repo: Repo) -> dict[str, list[tuple[str, str]]]:
+    """method name -> [(module name, class qualname)] over the whole package"""
+    cached = getattr(repo, "_c07_method_owners", None)
+    if cached is None:
+        cached = {}
+        for name, m in repo.modules.items():
+            for q, d in m.defs.items():
+                if isinstance(d, ast.ClassDef):
+                    for st in d.body:
+                        if isinstance(st, (ast.FunctionDef, ast.AsyncFunctionDef)):
+                            cached.setdefault(st.name, [])
+                            if (name, q) not in cached[st.name]:
+                                cached[st.name].append((name, q))
+        repo._c07_method_owners = cached  # type: ignore[attr-defined]
+    return cached
+
+
+def _decorators(fn: ast.AST) -> set[str]:
+    return {norm(d).rsplit(".", 1)[-1] for d in getattr(fn, "decorator_list", [])}
+
+
+class Callee:
+    """a call resolved to the def it runs: the module and def, the argument expression bound to every parameter (the
+    receiver for the self parameter of a method; the default where the call passes nothing), and for a method the class"""
+
+    def __init__(self, mod: Module, fn: ast.FunctionDef, bound: dict[str, Optional[ast.expr]], cls: Optional[str]):
+        self.mod, self.fn, self.bound, self.cls = mod, fn, bound, cls
+
+    def param_of(self, pred) -> Optional[str]:
+        """the one parameter whose argument satisfies pred"""
+        got = [p for p, a in self.bound.items() if a is not None and pred(a)]
+        return got[0] if len(got) == 1 else None
+
+
+def resolve_call(repo: Repo, mod: Module, call: ast.AST, cls: Optional[str] = None, selfnames: tuple[str, ...] = ("self",)) -> Optional[Callee]:
+    """the def of the package that `call` runs, when the syntax tells: f(...) for a module-level def f (followed through
+    aliases and `from X import f`), x._m(...) for a private method name that the class `cls` the caller sits in, or exactly one
+    class of the package, defines, self.m(...) for a method of the caller's class.  None for everything else (a builtin, a
+    parameter, a public method of some other object, a name several classes define, *args)."""
+    if not isinstance(call, ast.Call) or any(isinstance(a, ast.Starred) for a in call.args) or any(k.arg is None for k in call.keywords):
+        return None
+    fn: Optional[ast.AST] = None
+    where: Optional[Module] = None
+    recv: Optional[ast.expr] = None
+    owner: Optional[str] = None
+    if isinstance(call.func, ast.Name):
+        memo = repo.__dict__.setdefault("_c07_roots", {})
+        key = (id(mod), call.func.id)
+        if key not in memo:
+            memo[key] = root_callable(repo, mod, call.func)
+        root, where = memo[key]
+        fn = where.defs.get(root) if where is not None else None
+    elif isinstance(call.func, ast.Attribute):
+        # a method: the name must tell the def - a private name (`_x`; nobody outside the class hierarchy calls it) that the caller's class or
+        # exactly one class of the package defines, or any name the caller's class defines when the receiver is the caller's own instance
+        name = call.func.attr
+        owners = _method_owners(repo).get(name, [])
+        private = name.startswith("_") and not (name.startswith("__") and name.endswith("__"))
+        own = isinstance(call.func.value, ast.Name) and call.func.value.id in selfnames
+        pick = None
+        if cls is not None and (mod.name, cls) in owners and (private or own):
+            pick = (mod.name, cls)
+        elif len(owners) == 1 and private:
+            pick = owners[0]
+        if pick is not None:
+            where = repo.modules[pick[0]]
+            fn = where.methods(pick[1]).get(name)
+            owner = pick[1]
+            recv = call.func.value
+    if not isinstance(fn, ast.FunctionDef) or where is None:
+        return None
+    a = fn.args
+    if a.vararg is not None or a.kwarg is not None:
+        return None
+    params = [x.arg for x in a.posonlyargs + a.args]
+    defaults: dict[str, Optional[ast.expr]] = {}
+    for p, d in zip(reversed(params), reversed(a.defaults)):
+        defaults[p] = d
+    for p, d in zip([x.arg for x in a.kwonlyargs], a.kw_defaults):
+        defaults[p] = d
+    bound: dict[str, Optional[ast.expr]] = {}
+    pos = list(params)
+    if owner is not None:
+        deco = _decorators(fn)
+        if "staticmethod" in deco:
+            pass
+        elif "classmethod" in deco or "property" in deco:
+            return None
+        else:
+            if not pos:
+                return None
+            # C.m(x, ...) called on the class itself passes the instance explicitly
+            if isinstance(recv, ast.Name) and recv.id == owner.rsplit(".", 1)[-1]:
+                pass
+            else:
+                bound[pos.pop(0)] = recv
+    if len(call.args) > len(pos):
+        return None
+    for p, x in zip(pos, call.args):
+        bound[p] = x
+    for k in call.keywords:
+        if k.arg in bound or k.arg not in params + [x.arg for x in a.kwonlyargs]:
+            return None
+        bound[k.arg] = k.value
+    for p in params + [x.arg for x in a.kwonlyargs]:
+        if p not in bound:
+            if p not in defaults:
+                return None
+            bound[p] = defaults[p]
+    return Callee(where, fn, bound, owner)
+
+
+def execution_order(fn: ast.AST) -> dict[int, int]:
+    """id(node) -> index of the node in a depth-first walk of fn in field order (test before body before orelse, statements in
+    sequence): the order in which loop-free code evaluates.  Line numbers do not give it on an equivalent view of the tree, where an
+    inlined statement keeps the position it has in the helper."""
+    order: dict[int, int] = {}
+
+    def walk(n: ast.AST) -> None:
+        order[id(n)] = len(order)
+        for c in ast.iter_child_nodes(n):
+            walk(c)
+
+    walk(fn)
+    return order
+
+
+def binds_name(st: ast.AST, names: set[str]) -> bool:
+    """some node inside st stores (or deletes) one of the names"""
+    return any(isinstance(x, ast.Name) and isinstance(x.ctx, (ast.Store, ast.Del)) and x.id in names for x in ast.walk(st))
+
+
+def facts_at(mod: Module, fn: ast.AST, node: ast.AST) -> list[tuple[ast.expr, bool]]:
+    """branch_facts, minus the facts of earlier sibling statements whose names were re-bound between the test and node (a fact
+    about a name holds only as long as the name keeps its value)"""
+    facts = list(path_conds(mod, fn, node))
+    sibs = list(earlier_siblings(mod, fn, node))
+    order = execution_order(fn)
+    for st in sibs:
+        if not isinstance(st, ast.If):
+            continue
+        if always_leaves(st.body) and not always_leaves(st.orelse):
+            f = (st.test, False)
+        elif always_leaves(st.orelse) and not always_leaves(st.body):
+            f = (st.test, True)
+        else:
+            continue
+        names = {x.id for x in ast.walk(st.test) if isinstance(x, ast.Name)}
+        # what runs between st and node: every statement met on the way to node that starts after st (loop-free code assumed),
+        # and the side of st that control came through
+        rebound = any(binds_name(later, names) for later in sibs if order.get(id(later), -1) > order.get(id(st), 0))
+        rebound = rebound or any(binds_name(side, names) for side in (st.orelse if f[1] is False else st.body))
+        if not rebound:
+            facts.append(f)
+    return facts
+
+
+def split_conditional(e: ast.AST, conds: Optional[list[tuple[ast.expr, bool]]] = None) -> list[tuple[ast.expr, list[tuple[ast.expr, bool]]]]:
+    """the values a conditional expression can take, each with the tests under which it is taken: `a if t else b` gives
+    (a, [t]) and (b, [not t]); nested ones are split again"""
+    conds = list(conds or [])
+    if isinstance(e, ast.IfExp):
+        return split_conditional(e.body, conds + [(e.test, True)]) + split_conditional(e.orelse, conds + [(e.test, False)])
+    return [(e, conds)]  # type: ignore[list-item]
+
+
+def subst_names(e: ast.AST, mapping: dict[str, Optional[ast.AST]]) -> ast.AST:
+    """a copy of e with every loaded name of `mapping` replaced by (a copy of) the expression it maps to"""
+    import copy
+
+    class T(ast.NodeTransformer):
+        def visit_Name(self, n: ast.Name):  # noqa: N802
+            if isinstance(n.ctx, ast.Load) and mapping.get(n.id) is not None:
+                return copy.deepcopy(mapping[n.id])
+            return n
+
+    return T().visit(copy.deepcopy(e))
+
+
+def single_return(fn: ast.AST) -> Optional[ast.expr]:
+    """the expression a def returns when its body is one return statement (after the docstring)"""
+    body = [s for s in getattr(fn, "body", []) if not (isinstance(s, ast.Expr) and isinstance(s.value, ast.Constant) and isinstance(s.value.value, str))]
+    if len(body) == 1 and isinstance(body[0], ast.Return) and body[0].value is not None:
+        return body[0].value
+    return None
+
+
+def expand_calls(repo: Repo, mod: Module, e: ast.AST, cls: Optional[str] = None, depth: int = 0) -> ast.AST:
+    """a copy of e in which every call of a def of the package that is one return statement is replaced by the returned expression,
+    parameters replaced by the arguments (an expression-like helper is a name for an expression: `_fold(x)` for
+    `x.lower() if x else None`, `lit._is_number()` for `lit.datatype in NUMERIC and ...`)"""
+    import copy
+
+    if depth > 4:
+        return e
+
+    class T(ast.NodeTransformer):
+        def visit_Call(self, c: ast.Call):  # noqa: N802
+            self.generic_visit(c)
+            cal = resolve_call(repo, mod, c, cls)
+            if cal is None:
+                return c
+            r = single_return(cal.fn)
+            if r is None:
+                return c
+            inner = expand_calls(repo, cal.mod, r, cal.cls, depth + 1)
+            return subst_names(inner, cal.bound)
+
+    return T().visit(copy.deepcopy(e))
+
+
+def translate_table(repo: Repo, mod: Module, e: ast.AST, depth: int = 0) -> Optional[dict[str, Optional[str]]]:
+    """the character -> text mapping a constant str.translate() table denotes: a dict display (keys: one-character strings or
+    code points), str.maketrans(<dict display>), str.maketrans(a, b) of two constant strings, or a module-level name bound once
+    to one of these (followed through `from X import`)"""
+    if depth > 6:
+        return None
+    if isinstance(e, ast.Name):
+        vals = module_assigns(mod).get(e.id)
+        if vals:
+            return translate_table(repo, mod, vals[0], depth + 1) if len(vals) == 1 else None
+        imp = imported_from(repo, mod, e.id)
+        if imp is not None:
+            return translate_table(repo, imp[0], ast.Name(id=imp[1], ctx=ast.Load()), depth + 1)
+        return None
+    if isinstance(e, ast.Call) and norm(e.func) in ("str.maketrans", "maketrans", "bytes.maketrans") and not e.keywords:
+        if len(e.args) == 1:
+            return translate_table(repo, mod, e.args[0], depth + 1)
+        if len(e.args) >= 2 and all(isinstance(a, ast.Constant) and isinstance(a.value, str) for a in e.args[:2]) and len(e.args[0].value) == len(e.args[1].value):
+            return dict(zip(e.args[0].value, e.args[1].value))
+        return None
+    if isinstance(e, ast.Dict):
+        out: dict[str, Optional[str]] = {}
+        for k, v in zip(e.keys, e.values):
+            if not isinstance(k, ast.Constant):
+                return None
+            key = chr(k.value) if isinstance(k.value, int) and not isinstance(k.value, bool) else k.value
+            if not (isinstance(key, str) and len(key) == 1):
+                return None
+            if isinstance(v, ast.Constant) and (v.value is None or isinstance(v.value, str)):
+                out[key] = v.value
+            elif isinstance(v, ast.Constant) and isinstance(v.value, int):
+                out[key] = chr(v.value)
+            else:
+                s = fold_str(repo, mod, v)
+                if s is None:
+                    return None
+                out[key] = s
+        return out
+    return None
+
+
+def backslash_doublings(repo: Repo, mod: Module, fn: ast.AST) -> list[ast.Call]:
+    """the calls of fn that write text in which the backslash escapes itself, i.e. that map every backslash to two:
+    x.replace('\\\\', '\\\\\\\\') and x.translate(T) for a constant table T with that entry"""
+    out: list[ast.Call] = []
+    for c in own_nodes(fn):
+        if not (isinstance(c, ast.Call) and isinstance(c.func, ast.Attribute)):
+            continue
+        if c.func.attr == "replace" and len(c.args) == 2 and all(isinstance(a, ast.Constant) for a in c.args) \
+                and c.args[0].value in ("\\", b"\\") and c.args[1].value in ("\\\\", b"\\\\"):
+            out.append(c)
+        elif c.func.attr == "translate" and len(c.args) == 1 and not c.keywords:
+            t = translate_table(repo, mod, c.args[0])
+            if t is not None and t.get("\\") == "\\\\":
+                out.append(c)
+    return out
+
+
+class Copies:
+    """which local names of a (loop-free) def hold the same value: plain copies `a = b`, also element-wise in `a, c = b, d`, with the
+    points where they happen.  `same(name, root, at)`: at node `at`, `name` holds the value of `root` - it was copied from root before
+    and neither was re-bound since - or holds the value root gets from it afterwards - it is copied into root later and is not re-bound
+    until then (the value tested now is the value stored then)."""
+
+    def __init__(self, fn: ast.AST):
+        self.fn = fn
+        self.order = execution_order(fn)
+        self.copies: list[tuple[int, str, str]] = []  # (when, target, source)
+        self.binds: dict[str, list[int]] = {}
+        for n in own_nodes(fn):
+            pairs: list[tuple[ast.AST, Optional[ast.AST]]] = []
+            if isinstance(n, ast.Assign):
+                pairs = [(t, n.value) for t in n.targets]
+            elif isinstance(n, ast.AnnAssign) and n.value is not None:
+                pairs = [(n.target, n.value)]
+            elif isinstance(n, ast.AugAssign):
+                pairs = [(n.target, None)]
+            elif isinstance(n, (ast.For, ast.AsyncFor)):
+                pairs = [(n.target, None)]
+            elif isinstance(n, ast.NamedExpr):
+                pairs = [(n.target, n.value)]
+            elif isinstance(n, (ast.With, ast.AsyncWith)):
+                pairs = [(it.optional_vars, None) for it in n.items if it.optional_vars is not None]
+            when = self.order.get(id(n), 0)
+            for t, v in pairs:
+                self._bind(when, t, v)
+
+    def _bind(self, when: int, t: ast.AST, v: Optional[ast.AST]) -> None:
+        if isinstance(t, ast.Name):
+            self.binds.setdefault(t.id, []).append(when)
+            if isinstance(v, ast.Name):
+                self.copies.append((when, t.id, v.id))
+        elif isinstance(t, (ast.Tuple, ast.List)):
+            if isinstance(v, (ast.Tuple, ast.List)) and len(v.elts) == len(t.elts) and not any(isinstance(e, ast.Starred) for e in list(t.elts) + list(v.elts)):
+                for ti, vi in zip(t.elts, v.elts):
+                    self._bind(when, ti, vi)
+            else:
+                for x in ast.walk(t):
+                    if isinstance(x, ast.Name):
+                        self.binds.setdefault(x.id, []).append(when)
+
+    def rebound(self, name: str, lo: int, hi: int) -> bool:
+        return any(lo < w < hi for w in self.binds.get(name, []))
+
+    def same(self, name: str, root: str, at: ast.AST) -> bool:
+        if name == root:
+            return True
+        now = self.order.get(id(at))
+        if now is None:
+            return False
+        for when, t, src in self.copies:
+            if t == name and src == root and when < now and not self.rebound(name, when, now) and not self.rebound(root, when, now):
+                return True
+            if t == root and src == name and when > now and not self.rebound(name, now, when):
+                return True
+        return False
+
+    def flows_into(self, st: ast.AST, name: str, root: str) -> bool:
+        """the value the statement st binds to `name` is (or later becomes, unchanged) the value of `root`"""
+        if name == root:
+            return True
+        now = self.order.get(id(st))
+        if now is None:
+            return False
+        return any(t == root and src == name and when > now and not self.rebound(name, now, when) for when, t, src in self.copies)
